@@ -396,7 +396,7 @@ def _hessian_for_backend(prog, rep, f):
                     return f"{'-' if v[1] < 0 else ''}the cached callable"
                 return "None" if v == NONE else "?"
 
-            n_reach = 0
+            n_reach = n_none = 0
             for state, term in paths:
                 if not state["reached"]:
                     continue
@@ -408,6 +408,11 @@ def _hessian_for_backend(prog, rep, f):
                                f"pre-computed array on every call (it returns the captured `{shared_name}`): the stored constant is flipped on each evaluation, so every second Hessian SciPy sees has the wrong sign",
                                loc=f"{f.module.rel}:{ln}", detail="in-place-on-compiled-output", robust=True)
                 used, stored = state["used"], state["stored"]
+                if used == NONE and stored in (None, NONE):
+                    # no Hessian is handed over on this path (switched off, method without one): nothing can carry a wrong sign
+                    rep.ob("R17.4", f.name, True, f"{label}: a path on which SciPy gets hess=None (no Hessian requested / supported)", loc=f"{f.module.rel}:{sink[0].lineno}", detail=f"hess-none:{world}:{'hit' if cached else 'miss'}", trivial=True)
+                    n_none += 1
+                    continue
                 if cached:
                     if used == UNK:
                         rep.undecided(f"{f.name}: hess= not interpretable ({label})")
@@ -431,6 +436,8 @@ def _hessian_for_backend(prog, rep, f):
                                loc=f"{f.module.rel}:{state['stored_at']}", detail=f"hess-stored:{world}", robust=True)
             if not n_reach:
                 rep.undecided(f"{f.name}: the minimize call is not reached in the sliced walk ({label})")
+            elif n_none == n_reach:
+                rep.undecided(f"{f.name}: no path of the sliced walk hands SciPy a Hessian ({label}); where the Hessian goes is not followed")
 
 
 def check(prog, rep):
